@@ -52,3 +52,27 @@ Corollary C01_checked_table_scores_are_arpa : forall N t m K, (2 <= N)%nat -> ti
   forall ctx w, alookup t [w] <> None ->
   r_prob (fst (full_score_forgot N (alookup t) K ctx w)) = bo_score N (mlookup m) ctx w.
 Proof. intros N t m K HN Hc ctx w Hw. exact (forgot_prob N HN _ _ K (tinv_check_sound N t m Hc) ctx w Hw). Qed.
+
+(* The trie loader model (blank insertion, hallucinated probabilities, extension bits from contexts and from the
+   blanks' messages, left bits from children) establishes the invariants for EVERY well-formed input it accepts
+   (file listing <unk>): lengths between 1 and N, every word of every n-gram listed as a unigram. *)
+From Kenlm Require Import LM.Load LM.LoadTrieProofs.
+Theorem C01_load_trie_inv : forall N unigrams higher unk_prob t, (2 <= N)%nat ->
+  (forall g, In g (unigrams ++ concat higher) -> (1 <= length (g_key g) <= N)%nat) ->
+  (forall g w, In g (unigrams ++ concat higher) -> In w (g_key g) -> M_of (unigrams ++ concat higher) [w] <> None) ->
+  load_trie N true unk_prob unigrams higher = Loaded t ->
+  TInv N (alookup t) (M_of (unigrams ++ concat higher)).
+Proof. exact load_trie_inv. Qed.
+
+(* end to end, for all accepted well-formed files, all histories and words: load with the trie loader, query with
+   either search kind, get the ARPA back-off recursion of the file *)
+Corollary C01_trie_end_to_end : forall N unigrams higher unk_prob t K, (2 <= N)%nat ->
+  (forall g, In g (unigrams ++ concat higher) -> (1 <= length (g_key g) <= N)%nat) ->
+  (forall g w, In g (unigrams ++ concat higher) -> In w (g_key g) -> M_of (unigrams ++ concat higher) [w] <> None) ->
+  load_trie N true unk_prob unigrams higher = Loaded t ->
+  forall ctx w, alookup t [w] <> None ->
+  r_prob (fst (full_score_forgot N (alookup t) K ctx w)) = bo_score N (M_of (unigrams ++ concat higher)) ctx w.
+Proof.
+  intros N unigrams higher up t K HN Hl Hw Hload ctx w Hu.
+  exact (forgot_prob N HN _ _ K (load_trie_inv N unigrams higher up t HN Hl Hw Hload) ctx w Hu).
+Qed.
